@@ -160,6 +160,11 @@ class Run:
             print("KNOWN-FINDING: property=%s %s [oracle=%s, %d case(s) in this run, e.g. %s]" % (
                 self.prop, e["what"], e["oracle"], cnt,
                 json.dumps(acc.known_ex.get(idx), ensure_ascii=True, default=str)[:300]))
+        # vacuity guard: a listed known finding that no case of this run reproduced means the run no longer reaches it
+        silent = [e["id"] for i, e in all_known.items()
+                  if e.get("property") == self.prop and e.get("status") == "known" and i not in acc.known]
+        for kid in silent:
+            self.log("note: known finding %s was not reproduced by any case of this %s run" % (kid, self.tier))
         nviol = 0
         bad_harness = False
         rdir = os.path.join(VERIF, "replays", self.prop)
@@ -198,6 +203,7 @@ class Run:
         cov.setdefault("samples", acc.samples[:6] or ["(none recorded)"])
         cov["counters"] = dict(acc.counters)
         cov["known_finding_hits"] = {all_known[i]["id"]: c for i, c in acc.known.items()}
+        cov["known_findings_not_reproduced"] = silent
         cov["unlisted_violation_cases"] = dict(acc.viol_count)
         ev = {
             "property_id": self.prop,
